@@ -18,6 +18,11 @@ OS_MACRO = re.compile(r'(__APPLE__|__linux__|_WIN32|__WIN32|__FreeBSD__|__sun|__
 OS_HEADER = re.compile(r'(<windows\.h>|<CoreFoundation/|<CoreServices/|<IOKit/|<mach/|<SystemConfiguration/|<linux/|<net/|<ifaddrs\.h>|<arpa/inet\.h>|<syslog\.h>)')
 CORE_TUS = ['lltdBlock.c', 'lltdTlvOps.c', 'lltdWire.c', 'lltdAutomata.c']
 CONFIGS = [(cc, o, fs) for cc in ('gcc', 'clang') for o in ('-O0', '-O2', '-Os') for fs in ('', '-ffreestanding')]
+# the core built for OTHER targets the repository has ports for (object files only: no SDK, no libc headers — clang's own
+# freestanding headers are all the core includes): Apple triples in hosted mode (where LLVM knows the C library and may
+# emit calls into it), a 32-bit x86 and a bare-metal ARM target (ILP32: the compiler's 64-bit helpers appear)
+CROSS = [('x86_64-apple-macosx10.13', '-O2', ''), ('x86_64-apple-macosx10.13', '-Os', ''), ('arm64-apple-macosx11.0', '-O2', ''), ('arm64-apple-macosx11.0', '-Os', ''),
+         ('i386-unknown-linux-gnu', '-O2', '-ffreestanding'), ('armv7-none-eabi', '-Os', '-ffreestanding')]
 
 
 def lstr(xs):
@@ -54,6 +59,35 @@ def extract_symbols():
         r = vlib.run(['nm', '-u', os.path.join(d, 'core.o')])
         syms = sorted({l.split()[-1] for l in r.stdout.split('\n') if l.strip()})
         undef.append((name, syms))
+    nm = 'llvm-nm-14' if shutil.which('llvm-nm-14') else 'llvm-nm'
+    for target, o, fs in CROSS:
+        name = ' '.join(x for x in ('clang', '--target=' + target, o, fs) if x)
+        d = os.path.join(work, name.replace(' ', '_').replace('=', '_'))
+        os.makedirs(d)
+        objs = []
+        ok = True
+        for tu in CORE_TUS:
+            obj = os.path.join(d, tu[:-2] + '.o')
+            r = vlib.run(['clang', '--target=' + target, '-nostdlibinc', o] + ([fs] if fs else []) + ['-w', '-c', os.path.join(core, tu), '-o', obj])
+            if r.returncode != 0:
+                failures.append('%s: %s does not compile: %s' % (name, tu, r.stdout[-400:]))
+                ok = False
+                break
+            objs.append(obj)
+        if not ok:
+            continue
+        # no linker for these targets here: undefined symbols of all objects minus the symbols any of them defines
+        ru = vlib.run([nm, '-u'] + objs)
+        rd = vlib.run([nm, '--defined-only'] + objs)
+        if ru.returncode != 0 or rd.returncode != 0:
+            failures.append('%s: %s failed' % (name, nm))
+            continue
+        und = {l.split()[-1] for l in ru.stdout.split('\n') if l.strip() and not l.rstrip().endswith(':')}
+        dfn = {l.split()[-1] for l in rd.stdout.split('\n') if len(l.split()) == 3}
+        syms = sorted(und - dfn)
+        if 'apple' in target:
+            syms = sorted(s[1:] if s.startswith('_') else s for s in syms)          # Mach-O prefixes every C symbol with an underscore
+        undef.append((name, syms))
     r = vlib.run(['gcc', '-E', '-P', os.path.join(core, 'lltdPort.h')])
     api = sorted(set(re.findall(r'\b(lltd_port_\w+)\s*\(', r.stdout)))
     includes, tokens = [], []
@@ -81,7 +115,10 @@ def extract_symbols():
 
 
 ALLOWED_RT = ['__stack_chk_fail', '__stack_chk_guard', '_GLOBAL_OFFSET_TABLE_', '__udivdi3', '__umoddi3', '__divdi3', '__moddi3', '__muldi3',
-              '__ashldi3', '__lshrdi3', '__ashrdi3', '__udivmoddi4', '__bswapsi2', '__bswapdi2']
+              '__ashldi3', '__lshrdi3', '__ashrdi3', '__udivmoddi4', '__bswapsi2', '__bswapdi2',
+              '__aeabi_memcpy', '__aeabi_memcpy4', '__aeabi_memcpy8', '__aeabi_memmove', '__aeabi_memmove4', '__aeabi_memmove8', '__aeabi_memset', '__aeabi_memset4',
+              '__aeabi_memset8', '__aeabi_memclr', '__aeabi_memclr4', '__aeabi_memclr8', '__aeabi_uldivmod', '__aeabi_ldivmod', '__aeabi_uidiv', '__aeabi_uidivmod',
+              '__aeabi_idiv', '__aeabi_idivmod', '__aeabi_lmul', '__aeabi_llsl', '__aeabi_llsr', '__aeabi_lasr']
 MEM = ['memcpy', 'memset', 'memmove', 'memcmp']
 FREESTANDING = ['stdbool.h', 'stddef.h', 'stdint.h', 'stdarg.h', 'limits.h', 'float.h', 'iso646.h', 'stdalign.h', 'stdnoreturn.h']
 
@@ -118,8 +155,8 @@ def custom_check(tier, seed, finish, write_replay):
         broken = vlib.broken_theorems(out, PROP) or ['(build failed) ' + out[-500:]]
         notes.append('proof obligations no longer check: ' + '; '.join(broken))
         aud = {'theorems': vlib.theorem_names(PROP), 'discharged': [], 'axioms': []}
-    if len(undef) != len(CONFIGS):
-        notes.append('only %d of %d compiler configurations produced a symbol table' % (len(undef), len(CONFIGS)))
+    if len(undef) != len(CONFIGS) + len(CROSS):
+        notes.append('only %d of %d compiler configurations produced a symbol table' % (len(undef), len(CONFIGS) + len(CROSS)))
     cov = {
         'obligations': len(aud['theorems']), 'discharged': 0 if broken else len(aud['discharged']),
         'checker_cmd': 'cd /verif/lean && lake build LLTD.Props.C20 && lake env lean <generated #print axioms file>',
